@@ -1200,7 +1200,7 @@ func (h *runner) linearLimitWitness() {
 func (h *runner) manyWinners() {
 	const reg = 0x0000000200108681
 	type cfg struct{ n, g int }
-	cfgs := []cfg{{7, 5}, {7, 5}, {9, 6}, {7, 4}, {5, 3}}
+	cfgs := []cfg{{7, 5}, {7, 5}, {9, 6}, {13, 8}, {17, 10}, {7, 4}, {5, 3}}
 	for i, cf := range cfgs {
 		alg := tpm.Algorithm(tpm2.AlgSHA1)
 		if i%2 == 1 {
@@ -1430,6 +1430,6 @@ func main() {
 
 	c.Finish("e2e: command logs from boot simulations on fake_intel_firmware.fd (PCR0_DATA + 0..6 further measurements, appended TPMExtend, repeated digests, other-bank/other-PCR noise) and hand-made logs (no PCR0_DATA, PCR0_DATA not first / twice / inconsistent digest, aliasing digests); " +
 		"targets by known perturbations inside the search space (locality 0|3, dropped subset, decrement 0..limit-1 or bit flips, disjoint swaps) and just outside (decrement = limit and above, one more dropped/swapped than allowed, locality 1|2|4, 3-cycle, flips beyond the limit, everything dropped) and random bytes; both banks; random settings; each under GOMAXPROCS " + fmt.Sprint(gomaxprocs) +
-		"; e2e-slice-boundary: the dropped subset is the first/last combination of a goroutine's ID slice (k = 1..3 of 4..7 measurements, GOMAXPROCS 2,3,5,16); e2e-limit-2: MaxACMPolicyLinearDistance=2, register off by 2 and by 1 under GOMAXPROCS 1,2,3,4,5,16,64; e2e-many-winners: PCR0_DATA + 5..9 identical measurements, one dropped, decrement 3000 of 6000 (more succeeding goroutines than GOMAXPROCS+1); linear-hook: per-goroutine offered registers for " + fmt.Sprint(len(limits)) + " limits x GOMAXPROCS. A case is non-trivial when the log has >= 2 PCR0 measurements and the target is not random bytes (linear-hook: limit > 1); distinct = distinct Gallina literal")
+		"; e2e-slice-boundary: the dropped subset is the first/last combination of a goroutine's ID slice (k = 1..3 of 4..7 measurements, GOMAXPROCS 2,3,5,16); e2e-limit-2: MaxACMPolicyLinearDistance=2, register off by 2 and by 1 under GOMAXPROCS 1,2,3,4,5,16,64; e2e-many-winners: PCR0_DATA + 5..17 identical measurements, one dropped, decrement 3000 of 6000 (more succeeding goroutines than GOMAXPROCS+1); linear-hook: per-goroutine offered registers for " + fmt.Sprint(len(limits)) + " limits x GOMAXPROCS. A case is non-trivial when the log has >= 2 PCR0 measurements and the target is not random bytes (linear-hook: limit > 1); distinct = distinct Gallina literal")
 	_ = strings.Join
 }
